@@ -33,6 +33,7 @@ PID = "C19"
 ULABELS = ["A_1", "α", "H2O", "2B", "Ca2", "X*", "a.b", "[C]", "A-B", "x>y", "é", "µM"]
 
 S2 = R.sides(["A", "B", "C"], [None, 0, 1, 2, 3, 9], 2)      # 343
+S2Q = R.sides(["A", "B", "C"], [None, 0, 2, 9], 2)           # 157 (quick tier)
 S3 = R.sides(["A", "B"], [None, 2], 3)                        # 85
 S4 = R.sides(["A", "B"], [None, 2], 4)                        # 341
 SU2 = R.sides(ULABELS, [None, 2], 2)                          # 1 + 24 + 576 = 601
@@ -921,7 +922,6 @@ def _spaces(tier):
     thorough = tier == "thorough"
     sp = []
     styles = list(R.STYLES)
-    other = [x for x in styles if x != "single"]
     # -- equations
     if thorough:
         sp.append(Space("eq2: <=2 terms/side over {A,B,C} x coefficients {none,0,1,2,3,9}: all 343x343 equations x 3 spacing styles",
@@ -932,10 +932,10 @@ def _spaces(tier):
                         % ULABELS, "eq", [("side", SU2), ("probe", SU1), ("orient", [0, 1]), ("style", styles)],
                         build=_eq_probe_build))
     else:
-        sp.append(Space("eq2/quick: <=2 terms/side over {A,B,C} x coefficients {none,0,1,2,3,9}: all 343x343 equations, single blanks",
-                        "eq", [("left", S2), ("right", S2), ("style", ["single"])], build=_eq_build))
-        sp.append(Space("eq2/quick: each of the 343 sides against 5 probe sides, on either side, extra and minimal spacing",
-                        "eq", [("side", S2), ("probe", PROBES), ("orient", [0, 1]), ("style", other)],
+        sp.append(Space("eq2/quick: <=2 terms/side over {A,B,C} x coefficients {none,0,2,9}: all 157x157 equations, single blanks",
+                        "eq", [("left", S2Q), ("right", S2Q), ("style", ["single"])], build=_eq_build))
+        sp.append(Space("eq2/quick: each of the 343 sides (coefficients {none,0,1,2,3,9}) against 5 probe sides, on either side, x 3 spacing styles",
+                        "eq", [("side", S2), ("probe", PROBES), ("orient", [0, 1]), ("style", styles)],
                         build=_eq_probe_build))
         sp.append(Space("eq4/quick: <=3 terms/side over {A,B} x {none,2}: all 85x85 equations x 3 spacing styles",
                         "eq", [("left", S3), ("right", S3), ("style", styles)], build=_eq_build))
@@ -966,8 +966,8 @@ def _spaces(tier):
         sp.append(Space("kbare/quick: orders 0..8 x 0..8 x 3 side shapes x 8 unit systems x 4 variants ((7,.375),(7,0),(0,.375) with a UnitsSystem; (7,.375) with a units dict)",
                         "kbare", [("n", ORDERS), ("m", ORDERS), ("form", list(FORMS)), ("sys", sys8), ("variant", bare_variants)],
                         build=bare_build))
-        sp.append(Space("kbare/quick: orders 0..8 x 0..8 x shape 'two' x 36 unit systems x the same 4 variants",
-                        "kbare", [("n", ORDERS), ("m", ORDERS), ("form", ["two"]), ("sys", SYS36), ("variant", bare_variants)],
+        sp.append(Space("kbare/quick: orders 0..8 x 0..8 x shape 'two' x 36 unit systems x 2 variants ((7,.375) with a UnitsSystem and with a units dict)",
+                        "kbare", [("n", ORDERS), ("m", ORDERS), ("form", ["two"]), ("sys", SYS36), ("variant", [bare_variants[0], bare_variants[3]])],
                         build=bare_build))
         sp.append(Space("kexp/quick: orders 0..8 x 0..8 x reaction system (8) x quantity system (8) x {str, UnitValue}: right dimension accepted, value kept",
                         "kexp", [("n", ORDERS), ("m", ORDERS), ("sys", sys8), ("qsys", sys8), ("qform", ["str", "UnitValue"])],
